@@ -16,6 +16,7 @@ def run(ctx):
     I = common.impl()
     rng = ctx.rng
     reqs, exp = [], []
+    shared = {}
     for i in range(ctx.budget(500, 10000)):
         parsed = rng.random() < 0.85
         if parsed:
@@ -62,6 +63,34 @@ def run(ctx):
             ctx.fail("pretty-printing is not deterministic", info)
         if not trees.unchanged(o, snap):
             ctx.fail("the input tree was modified", info)
+        # ---- histories: a long-lived printer (one per setting, and the module-level `prettify`) must print every tree
+        # as a fresh printer does, whatever it printed before -- in particular a tree that differs from an earlier one
+        # only in one attribute (inclusiveness of a bound, a numeral, a value ...)
+        key = (indent, max_len, inline)
+        if key not in shared:
+            shared[key] = I.pretty.Prettifier(indent=indent, max_len=max_len, inline_ops=inline)
+        printers = [("shared printer", shared[key])]
+        if key == (4, 80, False):
+            printers.append(("module-level prettify", I.pretty.prettify))
+        for label, sp in printers:
+            if sp(o) != out:
+                ctx.fail("%s: output differs from a fresh printer's (history dependence)" % label, info)
+            for _ in range(2):
+                mu = gen.mutate_tree(rng, d)
+                if mu is None:
+                    continue
+                d2, what = mu
+                try:
+                    o2 = common.load_tree(d2)
+                    want = I.pretty.Prettifier(indent=indent, max_len=max_len, inline_ops=inline)(o2)
+                    got = sp(o2)
+                except Exception:
+                    continue
+                ctx.count("history: near-identical tree")
+                if got != want:
+                    ctx.fail("%s: after printing a tree, a tree differing in one point (%s) is printed differently from "
+                             "a fresh printer's output" % (label, what),
+                             dict(info, second_tree=d2, fresh=want, shared=got))
     if ctx.model_ok:
         for r, a, e in zip(reqs, common.ask_model(reqs), exp):
             if a != e:
